@@ -59,12 +59,23 @@ def graph_specs(draw, max_nodes: int = 12, min_nodes: int = 0, names: str = "adv
                 j = draw(st.integers(0, i - 1))
                 nodes.append({"name": nms[i], "outputs": _cp(nodes[j]["outputs"]), "payload": nodes[j]["payload"],
                               "inputs": {k: list(v) for k, v in nodes[j]["inputs"].items()}})
-                if draw(st.booleans()) and nodes[-1]["inputs"]:
+                variant = draw(st.sampled_from(["same", "repoint", "reordered", "crossed"]))
+                ins = nodes[-1]["inputs"]
+                if variant == "repoint" and ins:
                     # near-duplicate: one input re-pointed
-                    k = draw(st.sampled_from(sorted(nodes[-1]["inputs"])))
+                    k = draw(st.sampled_from(sorted(ins)))
                     src = draw(st.sampled_from(cands))
                     so = nodes[src]["outputs"]
-                    nodes[-1]["inputs"][k] = [src, "0" if so is None else draw(st.sampled_from(so))]
+                    ins[k] = [src, "0" if so is None else draw(st.sampled_from(so))]
+                elif variant == "reordered" and len(ins) >= 2:
+                    # a true duplicate whose inputs were given in another order
+                    nodes[-1]["inputs"] = {k: ins[k] for k in reversed(list(ins))}
+                elif variant == "crossed" and len(ins) >= 2:
+                    # NOT a duplicate: two inputs swapped -- and declared in the other order, so that position-wise they line up
+                    ks = list(ins)
+                    a, b = ks[0], ks[1]
+                    ins[a], ins[b] = ins[b], ins[a]
+                    nodes[-1]["inputs"] = {k: ins[k] for k in reversed(ks)}
                 continue
             nin = draw(st.integers(0, 3))
             inames = draw(st.lists(st.sampled_from(in_pool), min_size=nin, max_size=nin, unique=True))
